@@ -126,17 +126,26 @@ let vis_sc s =
       end
   | _ -> s
 let vis_sq s = match fields s with k :: t :: _ -> k ^ ":" ^ t | _ -> s
+(* a count matrix shows its counts, not the number of sequences: "cm:<abc>:<n>:<rows>" *)
+let vis_cm s = match fields s with [k; t; _; rows] -> k ^ ":" ^ t ^ ":" ^ rows | _ -> s
+let string_of_codes (l : z list) = String.concat "" (List.map (fun c -> String.make 1 (Char.chr (int_of_z c))) l)
+let codes_of_string (s : string) = zl (List.map Char.code (List.of_seq (String.to_seq s)))
 let text_of_sq s = match fields s with [_; _; _; text] -> if text = "-" then "" else text | _ -> ""
 
 let render_obj (o : (string, string, string, string, string) obj) : string =
   match o with
-  | OCount (_, c) -> c
+  | OCount (_, c) -> vis_cm c
   | OWeight (_, w) -> vis_bg w
   | OScoring (_, s) -> vis_bg s
   | OSeq (_, q) -> vis_sq q
   | OScores sc -> vis_sc sc
   | OScanner _ -> "scanner"
   | OMotif _ | OLoaded _ -> "?"
+  | OEncoded (a, s) -> "es:" ^ tag a ^ ":" ^ hex_or_dash (hex_of_cps s)
+  (* the distribution object is the same at every access and belongs to this matrix alone *)
+  | ODist d -> string_of_codes d ^ ":same=1:shared=0"
+  | OFile -> "file"
+  | OLoader _ -> "loader"
 
 let render_motif (m : (string, string, string) motif) : string =
   let kind = match m.m_kind with
@@ -145,7 +154,7 @@ let render_motif (m : (string, string, string) motif) : string =
     | MUniprobe -> "uniprobe+N+N+N"
     | MTransfac (d, i, a) -> "transfac+" ^ hx d ^ "+" ^ hx i ^ "+" ^ hx a in
   Printf.sprintf "mo+%s+%s+%s+%s+%s+%s" (tag m.m_abc) (hx m.m_name)
-    (match m.m_counts with None -> "N" | Some c -> c) (vis_bg m.m_pwm) (vis_bg m.m_pssm) kind
+    (match m.m_counts with None -> "N" | Some c -> vis_cm c) (vis_bg m.m_pwm) (vis_bg m.m_pssm) kind
 
 let exc_name = function
   | ValueError -> "ValueError" | TypeError -> "TypeError" | OverflowError -> "OverflowError"
@@ -176,7 +185,12 @@ let render_result (r : (string, string, string, string, string) result) : string
       ("h:" ^ hex_or_dash (String.concat "/" (List.map (fun (p, s) -> string_of_z p ^ "," ^ string_of_z s) h))
        ^ ":" ^ (if ended then "1" else "0"), None)
   | RLoad (ms, tail) -> (String.concat "&" ("ld" :: List.map render_motif ms), Some tail)
+  | RLoadSeq items ->
+      (String.concat "&" ("ld" :: List.map (function
+           | Value m -> render_motif m | PyExc e -> "E:" ^ exc_name e | Panic -> "P") items), None)
   | RUnit -> ("deleted", None)
+  | RBool b -> ((if b then "b:1" else "b:0"), None)
+  | RStr t -> ("s:" ^ hex_or_dash (hex_of_cps t), None)
 
 (* ------------------------------------------------------------------ the core library = oracle table *)
 let make_core (tbl : (string, string) Hashtbl.t) : (string, string, string, string, string, string) core =
@@ -195,6 +209,7 @@ let make_core (tbl : (string, string) Hashtbl.t) : (string, string, string, stri
         | ["err"; "invalid"] -> RErr EInvalidData
         | ["err"; "io"] -> RErr EIo
         | ["err"; "nom"] -> RErr ENom
+        | ["panic"] -> RPanic
         | ["ok"; "jaspar"; name; desc; _; _; c] ->
             ROk (RecJaspar ((match unhx name with Some n -> n | None -> []), unhx desc, c))
         | ["ok"; "uniprobe"; name; _; _; _; f] -> ROk (RecUniprobe ((match unhx name with Some n -> n | None -> []), f))
@@ -217,6 +232,10 @@ let make_core (tbl : (string, string) Hashtbl.t) : (string, string, string, stri
     c_scoring_new = (fun a g m -> cres (Printf.sprintf "scoring_new~%s~%s~%s" (tag a) (bits_txt g) (rows_txt m)) id);
     c_revcomp = (fun s -> cres ("revcomp~" ^ s) id);
     c_max_score = (fun s -> cres ("max_score~" ^ s) (fun v -> z_of_string (after_colon v)));
+    c_cm_eq = (fun x y -> find (Printf.sprintf "eq~%s~%s" x y) = "true");
+    c_wm_eq = (fun x y -> find (Printf.sprintf "eq~%s~%s" x y) = "true");
+    c_sm_eq = (fun x y -> find (Printf.sprintf "eq~%s~%s" x y) = "true");
+    c_dist_sf = (fun x -> cres ("dist_sf~" ^ x) codes_of_string);
     (* the scores are part of the content "sm:<abc>:<background>:<rows>" *)
     c_sm_cells = (fun s -> match fields s with
         | [_; _; _; rows] when rows <> "-" -> List.map zlist (split '/' rows)
@@ -238,6 +257,18 @@ let make_core (tbl : (string, string) Hashtbl.t) : (string, string, string, stri
             if b = "-" then [] else
             List.map (fun h -> match split ',' h with [p; x] -> (z_of_string p, z_of_string x) | _ -> failwith "hit")
               (split '/' b)));
+    c_read_faulty = (fun desc f a ->
+        let d = string_of_codes desc in
+        let (mode, hex) = match String.index_opt d '|' with
+          | Some i -> (String.sub d 0 i, String.sub d (i + 1) (String.length d - i - 1)) | None -> (d, "") in
+        match find (Printf.sprintf "read_faulty~%s~%s~%s~%s" (fmt_txt f) (tag a) mode (hex_or_dash hex)) with
+        | "P" -> [RPanic]
+        | v -> parse_items v);
+    c_lazy_next = (fun id j ->
+        match find (Printf.sprintf "lnext~%d~%d" (int_of_nat id) (int_of_nat j)) with
+        | "stop" -> None
+        | "P" -> Some RPanic
+        | v -> (match parse_items v with [it] -> Some it | _ -> failwith "lazy item"));
     c_read = (fun f a data ->
         match find (Printf.sprintf "read~%s~%s~%s" (fmt_txt f) (tag a) (hex_or_dash (hex_of_bytes (il data)))) with
         | "P" -> [RPanic]
@@ -266,6 +297,7 @@ let file_of_mode mode data : file_arg =
   | "t" | "fx" -> FileNotBytes
   | "o" -> FileBroken
   | "r0" | "fe" -> FileData []
+  | m when String.length m > 1 && m.[0] = 'X' -> FileFaulty (codes_of_string (m ^ "|" ^ (if data = "-" then "" else data)))
   | m when String.length m > 2 && m.[0] = 'f' && (m.[1] = 'b' || m.[1] = 'u' || m.[1] = 'z' || m.[1] = 'k') ->
       FileData (zl (drop (num ()) raw))
   | m when String.length m > 2 && m.[0] = 'f' && m.[1] = 'n' -> FileData (zl (drop_lines (num ()) raw))
@@ -295,6 +327,15 @@ let parse_op (s : string) : call =
   | ["ld"; d; mode; data; f; p] | ["lc"; d; mode; data; f; p] -> KLoad (n d, file_of_mode mode data, opt_pv f, opt_pv p)
   | ["gl"; d; l; i; w] -> KGetLoaded (n d, n l, n i, which_of w)
   | ["dl"; x] -> KDelete (n x)
+  | ["es"; d; q; p] -> KEncode (n d, pv q, opt_pv p)
+  | ["et"; d; e] -> KEncStripe (n d, n e)
+  | ["cp"; d; x; _] -> KCopy (n d, n x)
+  | ["eq"; x; y] -> KEq (n x, pv y)
+  | ["sr"; x] -> KStr (n x)
+  | ["sd"; d; m] -> KDist (n d, n m)
+  | ["fo"; d; _] -> KFileNew (n d)
+  | ["ll"; d; fl; f; p] -> KLoaderNew (n d, n fl, opt_pv f, opt_pv p)
+  | ["ln"; l; k] -> KLoaderNext (n l, n k)
   | _ -> failwith ("bad op " ^ s)
 
 (* R<k>. = the float returned by op k (as observed); None when op k returned no float *)
@@ -320,14 +361,16 @@ let parse_obs (s : string) : obs =
   else if String.length s >= 2 && String.sub s 0 2 = "E:" then OE (String.sub s 2 (String.length s - 2))
   else OE ("?" ^ s)
 
+let raw_exc_name : string ref = ref ""
 let obs_outcome = function
   | OV v -> Value v
-  | OE n -> (match exc_of_name n with Some e -> PyExc e | None -> PyExc NameError)
+  | OE n -> (match exc_of_name n with Some e -> PyExc e | None -> raw_exc_name := n; PyExc NameError)
   | OP -> Panic
   | OU -> PyExc NameError
 
 let show_outcome = function
   | Value v -> "V:" ^ short v
+  | PyExc NameError when !raw_exc_name <> "" -> "E:" ^ !raw_exc_name
   | PyExc e -> "E:" ^ exc_name e
   | Panic -> "P"
 
@@ -454,6 +497,28 @@ let () =
                                              (short (String.concat "/" (List.sort compare wa))) (short (String.concat "/" (List.sort compare ga))))
                          else if "V:" ^ want_s <> "V:" ^ g then
                            set "DIFF" (Printf.sprintf "%s model=%s python=%s" where (short want_s) (short g))
+                     | Done (Value (RLoadSeq items)), Some (OV g) ->
+                         (* iteration over a misbehaving file object, item by item *)
+                         let got_items = match String.split_on_char '&' g with "ld" :: r -> r | r -> r in
+                         let canon x =
+                           if x = "P" then Panic
+                           else if String.length x >= 2 && String.sub x 0 2 = "E:" then
+                             (match exc_of_name (String.sub x 2 (String.length x - 2)) with
+                              | Some e -> PyExc e | None -> PyExc NameError)
+                           else Value x in
+                         let want_items = List.map (function
+                             | Value m -> Value (render_motif m) | PyExc e -> PyExc e | Panic -> Panic) items in
+                         let gi = List.map canon got_items in
+                         if List.length gi <> List.length want_items then
+                           set "PROPFAIL" (Printf.sprintf "%s load-items-mismatch core=%d items python=%d items: %s" where
+                                             (List.length want_items) (List.length gi) (short g))
+                         else
+                           List.iteri (fun k (w, o) ->
+                               if not (check_C17 String.equal w o) then
+                                 set "PROPFAIL" (Printf.sprintf "%s item%d %s core=%s python=%s" where k (kind_of w o) (show_outcome w) (show_outcome o))
+                               else if not (same_outcome String.equal w o) then
+                                 set "DIFF" (Printf.sprintf "%s item%d model=%s python=%s" where k (show_outcome w) (show_outcome o)))
+                             (List.combine want_items gi)
                      | Done want, Some ob ->
                          let got = obs_outcome ob in
                          let (want_s, want_tail) =
